@@ -116,46 +116,32 @@ def main(tier):
     ncorp = 0
     if tier == 'thorough' and not ck.expired():
         from vlib import corpus
-        from vlib.common import pmap
         b2 = ck.build('aldor', 'foam', 'foamlib', 'axllib')
         tca = TC(b2, 'axllib')
-        names = corpus.names()
-        clevels = ['-Q1', '-Q2', '-Q3', '-Q5']
-        jobs = [(n, route, q) for n in names for route in ('c', 'interp') for q in ['-Q0', '-Q0'] + clevels]
-
-        def crun(j):
-            n, route, q = j
-            if ck.expired():
-                return j, None
-            r = corpus.run_one(tca, n, route, (q,), ck.work)
-            return j, (r.rc, r.timeout, r.sig, r.out)
-        got = {}
-        for j, v in pmap(crun, jobs):
-            if v is None:
-                ck.cut('corpus run not done')
-                continue
-            got.setdefault(j, []).append(v)
+        clevels = ['-Q0', '-Q1', '-Q2', '-Q3', '-Q5']
+        names, got = corpus.matrix(ck, tca, ('c', 'interp'), clevels, ck.work)
         for n in names:
             for route in ('c', 'interp'):
                 b0 = got.get((n, route, '-Q0'), [])
-                if len(b0) < 2 or b0[0] != b0[1] or b0[0][1]:
-                    continue          # baseline not reproducible (or timed out): the program does not run deterministically
-                for q in clevels:
+                if len(b0) < 2 or b0[0].key() != b0[1].key() or b0[0].timeout or b0[0].stage != 'run':
+                    continue          # baseline does not build, timed out, or is not reproducible: outside "runs deterministically"
+                for q in clevels[1:]:
                     v = got.get((n, route, q))
                     if not v:
                         continue
                     v = v[0]
                     ck.count()
                     ncorp += 1
-                    if v[1]:
+                    if v.timeout or v.stage != 'run':
+                        # compile time and compile-time acceptance are not program behaviour
                         noverdict['corpus:' + q] = noverdict.get('corpus:' + q, 0) + 1
                         continue
-                    if (v[0] == 0) == (b0[0][0] == 0) and v[3] == b0[0][3]:
+                    if v.key() == b0[0].key():
                         ck.nontrivial(('corpus', n, route, q))
                     else:
                         ck.report('corpus=%s@%s:%s' % (n, route, q), 'corpus program %s on %s: %s (rc %s, %d bytes) differs from -Q0 (rc %s, %d bytes)' % (
-                            n, route, q, v[0], len(v[3]), b0[0][0], len(b0[0][3])), files={'got.txt': v[3], 'baseline.txt': b0[0][3]},
-                            cmds=['# lib/axllib/test/%s/%s.as with the axllib library, %s vs -Q0 on the %s route' % (n, n, q, route)])
+                            n, route, q, v.rc, len(v.out), b0[0].rc, len(b0[0].out)), files={'got.txt': v.out, 'baseline.txt': b0[0].out},
+                            cmds=['# lib/axllib/test/%s/%s.as with the axllib library, %s vs -Q0 on the %s route (interp = compile to .ao, then -Ginterp on the .ao)' % (n, n, q, route)])
     ck.cov['corpus_program_runs'] = ncorp
     ck.cov.update({
         'rule': 'cases of the enumerated families x optimisation configurations (10 levels, -O, 20 single switches, 20 complements, all pairs of '
